@@ -1,10 +1,13 @@
 mod c10;
+mod c11;
 mod model;
+mod report;
 mod space;
 fn main() {
     let ctx = vcore::Ctx::from_args();
     match ctx.prop.as_str() {
         "C10" => c10::run(&ctx),
+        "C11" => c11::run(&ctx),
         other => {
             eprintln!("MACHINERY: vk-ord does not serve property {other:?}");
             std::process::exit(2)
